@@ -197,8 +197,47 @@ def d3_degree(ctx):
         raise AnchorMissing("no amplitude comparison found under compute_spike_features (value-name table out of date)")
 
 
+def _keep_sets(fi, du):
+    """For arr_pre_post: {returned variable: relation of the kept samples t to the peak index p}, from either the cumulative-mask form
+    (NaN stored where mask == 0 / == 1, mask = cumsum of a one-hot at p along time) or the broadcast form np.where(t OP p, arr, nan)."""
+    keep = {}
+    form = None
+    # form B
+    for d in du.defs:
+        if d.kind == "assign" and isinstance(d.value, ast.Call) and call_name(d.value) == "where" and len(d.value.args) == 3 and "nan" in src(d.value.args[2]):
+            c = d.value.args[0]
+            if isinstance(c, ast.Compare) and len(c.ops) == 1:
+                l, r = expand_name(du, c.left, d.stmt), expand_name(du, c.comparators[0], d.stmt)
+                lt, rt = src(l), src(r)
+                t_left = "arange" in lt and "shape[1]" in lt
+                p_right = "indx_peak" in rt or "indx_peak" in src(c.comparators[0])
+                if t_left and p_right:
+                    keep[d.var] = {ast.Lt: "<", ast.LtE: "<=", ast.Gt: ">", ast.GtE: ">="}.get(type(c.ops[0]))
+                    form = "broadcast"
+    if keep:
+        return keep, form
+    # form A
+    cs = [c for c in find(fi.node, ast.Call, nested=False) if call_name(c) == "cumsum"]
+    okm = bool(cs) and const_value(kwarg(cs[0], "axis")) == (True, 1)
+    oh = [st for st in walk_function(fi.node) if isinstance(st, ast.Assign) and isinstance(st.targets[0], ast.Subscript) and loc_name(st.targets[0].value) == "arr_mask"
+          and const_value(st.value) == (True, 1)]
+    okm = okm and bool(oh) and isinstance(oh[0].targets[0].slice, ast.Tuple) and loc_name(oh[0].targets[0].slice.elts[1]) == "indx_peak"
+    if not okm:
+        return {}, None
+    for st in walk_function(fi.node):
+        if isinstance(st, ast.Assign) and isinstance(st.targets[0], ast.Subscript) and "nan" in src(st.value):
+            arr = loc_name(st.targets[0].value)
+            sel = expand_name(du, st.targets[0].slice, st)
+            cmps = find(sel, ast.Compare)
+            if cmps and loc_name(cmps[0].left) == "arr_mask":
+                v = const_value(cmps[0].comparators[0])[1]
+                # cumulative one-hot: 0 for t < p, 1 for t >= p ; NaN where mask == v  => kept where mask != v
+                keep[arr] = "<" if v == 1 else ">=" if v == 0 else None
+    return keep, "cumulative-mask"
+
+
 def d4_pre_post(ctx):
-    ctx.rule("D4", "arr_pre_post returns (pre, post) from a cumulative one-hot mask along time; find_tip uses pre, find_trough uses post")
+    ctx.rule("D4", "arr_pre_post returns (samples t < peak, samples t >= peak); find_tip takes its extremum over the first, find_trough over the second")
     repo = ctx.repo
     fi = repo.fn(MOD + ".arr_pre_post")
     du = DefUse(fi.node)
@@ -206,36 +245,41 @@ def d4_pre_post(ctx):
     if not rets or not isinstance(rets[-1].value, ast.Tuple) or len(rets[-1].value.elts) != 2:
         raise AnalysisError("arr_pre_post: return is not a pair")
     first, second = [loc_name(e) for e in rets[-1].value.elts]
-    nan_at = {}
-    for st in walk_function(fi.node):
-        if isinstance(st, ast.Assign) and isinstance(st.targets[0], ast.Subscript) and "nan" in src(st.value):
-            arr = loc_name(st.targets[0].value)
-            sel = expand_name(du, st.targets[0].slice, st)
-            cmps = find(sel, ast.Compare)
-            if cmps and loc_name(cmps[0].left) == "arr_mask":
-                nan_at[arr] = const_value(cmps[0].comparators[0])[1]
-    ctx.check(nan_at.get(first) == 1 and nan_at.get(second) == 0, fi, rets[-1], f"NaN where mask == {nan_at}", "first result keeps samples before the peak, second keeps samples from the peak on",
-              f"NaN masks are {nan_at} for ({first}, {second}): pre/post arrays are swapped or overlap", key="masks")
-    cs = [c for c in find(fi.node, ast.Call, nested=False) if call_name(c) == "cumsum"]
-    okm = bool(cs) and const_value(kwarg(cs[0], "axis")) == (True, 1)
-    oh = [st for st in walk_function(fi.node) if isinstance(st, ast.Assign) and isinstance(st.targets[0], ast.Subscript) and loc_name(st.targets[0].value) == "arr_mask"
-          and const_value(st.value) == (True, 1)]
-    okm = okm and bool(oh) and isinstance(oh[0].targets[0].slice, ast.Tuple) and loc_name(oh[0].targets[0].slice.elts[1]) == "indx_peak"
-    ctx.check(okm, fi, cs[0] if cs else fi.node, cs[0] if cs else "cumsum", "mask = cumulative sum along time of a one-hot at the peak index", "mask is not cumsum(one-hot at peak, axis=1)", key="mask")
-    for q, want_slot, red in ((MOD + ".find_tip", 0, "nanargmax"), (MOD + ".find_trough", 1, "nanargmax")):
+    keep, form = _keep_sets(fi, du)
+    if form is None:
+        raise AnalysisError("arr_pre_post: neither the cumulative-mask nor the broadcast np.where form recognised")
+    ctx.check(keep.get(first) == "<", fi, rets[-1], f"[{form}] first result keeps t {keep.get(first)} peak", "the pre-peak array keeps exactly the samples before the peak",
+              f"the first returned array keeps samples t {keep.get(first)} peak, expected t < peak", key="pre-set", name_free=(form == "broadcast"))
+    ctx.check(keep.get(second) == ">=", fi, rets[-1], f"[{form}] second result keeps t {keep.get(second)} peak", "the post-peak array keeps the peak sample and everything after it",
+              f"the second returned array keeps samples t {keep.get(second)} peak, expected t >= peak: "
+              + ("the peak sample itself is dropped, so the post-peak row is empty (all NaN) when the peak is the last sample - the trough search then fails or, with a "
+                 "NaN-tolerant argmax, silently returns index 0 (a trough before the peak)" if keep.get(second) == ">" else "pre/post arrays are swapped or overlap"),
+              key="post-set", name_free=(form == "broadcast"))
+    for q, want_slot in ((MOD + ".find_tip", 0), (MOD + ".find_trough", 1)):
         f2 = repo.fn(q)
         du2 = DefUse(f2.node)
         un = [n for n in walk_function(f2.node) if isinstance(n, ast.Assign) and isinstance(n.value, ast.Call) and repo.resolve_call(f2, n.value) == MOD + ".arr_pre_post"]
         if not un or not isinstance(un[0].targets[0], ast.Tuple):
             raise AnchorMissing(f"{q}: unpacking of arr_pre_post not found")
         names = [loc_name(e) for e in un[0].targets[0].elts]
-        rc = [c for c in find(f2.node, ast.Call, nested=False) if call_name(c) == red]
-        ok = bool(rc) and loc_name(rc[0].args[0]) == names[want_slot]
+        # the extremum: nanargmax(X) or argmax(nan_to_num(X, nan=-inf)) - find which slot X is
+        rc = [c for c in find(f2.node, ast.Call, nested=False) if call_name(c) in ("nanargmax", "argmax", "nanargmin", "argmin")]
+        slot = None
+        kind = None
+        for c in rc:
+            a = c.args[0] if c.args else None
+            while isinstance(a, ast.Call) and call_name(a) in ("nan_to_num", "where", "copy", "asarray") and a.args:
+                a = a.args[0] if call_name(a) != "where" else a.args[1]
+            if loc_name(a) in names:
+                slot, kind = names.index(loc_name(a)), call_name(c)
+                ax = kwarg(c, "axis")
         b_args = un[0].value.args
         okp = len(b_args) == 2 and "peak_time_idx" in src(b_args[1])
-        ctx.check(ok and okp, f2, rc[0] if rc else f2.node, rc[0] if rc else red, f"{q.split('.')[-1]} searches the {'pre' if want_slot == 0 else 'post'}-peak samples",
-                  f"{q.split('.')[-1]} takes its extremum over slot {names.index(loc_name(rc[0].args[0])) if rc and loc_name(rc[0].args[0]) in names else '?'} of arr_pre_post "
-                  f"(expected slot {want_slot}): tip/trough land on the wrong side of the peak", key=f"slot:{q.split('.')[-1]}")
+        if slot is None:
+            raise AnalysisError(f"{q}: the extremum search over the pre/post array was not recognised")
+        ctx.check(slot == want_slot and okp and kind in ("nanargmax", "argmax"), f2, rc[0] if rc else f2.node, f"{kind} over slot {slot}", f"{q.split('.')[-1]} searches the {'pre' if want_slot == 0 else 'post'}-peak samples",
+                  f"{q.split('.')[-1]} takes its extremum ({kind}) over slot {slot} of arr_pre_post (expected the maximum over slot {want_slot}): tip/trough land on the wrong side of the peak",
+                  key=f"slot:{q.split('.')[-1]}")
 
 
 def d5_indexing(ctx):
